@@ -176,3 +176,32 @@ Proof.
   pose proof (run_sched_loads sched m thr) as [_ H].
   destruct (run_sched m thr sched). apply H.
 Qed.
+
+(** hence a load never returns an invented value: it is the initial content or the value of some
+    store to that field that precedes it in the schedule *)
+Lemma last_store_in f evs : forall d,
+  last_store f evs d = d \/ exists tid v x, In (tid, AStore f v, x) evs /\ last_store f evs d = v.
+Proof.
+  induction evs as [|[[tid a] x] evs IH]; intro d; [left; reflexivity|].
+  destruct a as [f' v|f']; cbn [last_store].
+  - destruct (field_eqb f f') eqn:E.
+    + apply field_eqb_eq in E. subst f'. destruct (IH v) as [H|(t & v' & x' & Hin & H)].
+      * right. exists tid, v, x. split; [left; reflexivity|exact H].
+      * right. exists t, v', x'. split; [right; exact Hin|exact H].
+    + destruct (IH d) as [H|(t & v' & x' & Hin & H)]; [left; exact H|].
+      right. exists t, v', x'. split; [right; exact Hin|exact H].
+  - destruct (IH d) as [H|(t & v' & x' & Hin & H)]; [left; exact H|].
+    right. exists t, v', x'. split; [right; exact Hin|exact H].
+Qed.
+
+Theorem conc_loads_not_invented thr sched m :
+  let '(m', evs) := run_sched m thr sched in
+  forall pre tid f v post, evs = (pre ++ (tid, ALoad f, v) :: post)%list ->
+    v = get_field m f \/ exists tid' x, In (tid', AStore f v, x) pre.
+Proof.
+  pose proof (conc_loads_were_stored thr sched m) as H.
+  destruct (run_sched m thr sched) as [m' evs]. intros pre tid f v post Hs.
+  rewrite (H pre tid f v post Hs).
+  destruct (last_store_in f pre (get_field m f)) as [E|(t & v' & x & Hin & E)]; [left; exact E|].
+  right. exists t, x. rewrite E. exact Hin.
+Qed.
